@@ -76,10 +76,52 @@ def mutable_parts(obj, depth=0, path=''):
     return parts
 
 
+_POOL = {}
+
+
+def vector_item_pool():
+    """items seen in corpus instances of each vector class (to edit vectors that are empty)"""
+    from cryptoparser.common.base import ArrayBase
+    if _POOL:
+        return _POOL
+    seen = set()
+
+    def walk(o, depth=0):
+        if depth > 6 or id(o) in seen:
+            return
+        seen.add(id(o))
+        if isinstance(o, ArrayBase):
+            for x in list(o):
+                _POOL.setdefault(type(o), [])
+                if len(_POOL[type(o)]) < 4:
+                    _POOL[type(o)].append(x)
+                walk(x, depth + 1)
+        elif attr.has(type(o)):
+            for f in attr.fields(type(o)):
+                try:
+                    walk(getattr(o, f.name), depth + 1)
+                except AttributeError:
+                    pass
+        elif isinstance(o, (list, tuple)):
+            for x in o:
+                walk(x, depth + 1)
+    for _, obj, _ in templates():
+        walk(obj)
+    _POOL.setdefault(object, [])
+    return _POOL
+
+
 def edit_in_place(part, k):
     """one in-place edit of a container; returns a description or None if nothing could be done"""
     from cryptoparser.common.base import ArrayBase
     import enum
+    if isinstance(part, ArrayBase) and len(part) == 0:
+        for cand in vector_item_pool().get(type(part), []):
+            try:
+                part.append(copy.deepcopy(cand))
+                return 'vector.append(pool)'
+            except Exception:  # pylint: disable=broad-except
+                continue
     if isinstance(part, bytearray):
         part.append(0x41 + k % 20)
         return 'bytearray.append'
@@ -144,12 +186,39 @@ def observers_of(obj):
             a = None
         if a is not None:
             res.append(name)
+    if 'as_markdown' in res:
+        res.append('as_markdown_enc')
     return res
+
+
+class _UpperEncoder(object):
+    pass
 
 
 def call_observer(obj, name):
     """returns (digest-able result, raised?)"""
     from .project import project
+    if name == 'as_markdown_enc':
+        # markdown rendering under a caller-installed class-level text encoder: the encoder is process-wide
+        # state that the call must leave as it found it
+        from cryptoparser.common.base import Serializable, SerializableTextEncoder
+
+        class Upper(SerializableTextEncoder):
+            def __call__(self, o, level):
+                is_complex, text = super(Upper, self).__call__(o, level)
+                return is_complex, text.upper() if isinstance(text, str) else text
+        saved = Serializable.post_text_encoder
+        mine = Upper()
+        Serializable.post_text_encoder = mine
+        try:
+            r = obj.as_markdown()
+            left = Serializable.post_text_encoder is mine
+            return project([r, 'encoder-restored' if left else 'ENCODER-NOT-RESTORED']), False
+        except Exception as e:  # pylint: disable=broad-except
+            left = Serializable.post_text_encoder is mine
+            return 'raised:' + type(e).__name__ + ('' if left else ':ENCODER-NOT-RESTORED'), True
+        finally:
+            Serializable.post_text_encoder = saved
     try:
         a = getattr(type(obj), name)
         if isinstance(a, property):
